@@ -2,6 +2,7 @@ package multi
 
 import (
 	"context"
+	"errors"
 	"time"
 
 	"github.com/aptpod/iscp-go/internal/vf"
@@ -17,6 +18,7 @@ type zzMember struct {
 	rx, tx   uint64
 	negCalls int
 	unrCalls int
+	closeErr error
 }
 
 func zzNewMember(id transport.TransportID, count int) *zzMember {
@@ -36,7 +38,7 @@ func (m *zzMember) Close() error {
 	if m.closed == 1 {
 		close(m.in)
 	}
-	return nil
+	return m.closeErr
 }
 func (m *zzMember) RxBytesCounterValue() uint64 { return m.rx }
 func (m *zzMember) TxBytesCounterValue() uint64 { return m.tx }
@@ -217,5 +219,39 @@ func zzC19eCloseCounters() {
 	vf.Assert("close-closes-every-member", cerr == nil && a.closed == 1 && b.closed == 1)
 	_, rerr := m.Read()
 	vf.Assert("read-after-close-fails", rerr != nil)
+	vf.Reach("end")
+}
+
+// C19.e2: Close closes every member also when some members' Close reports an error, whatever order
+// the member map is walked in; the members' errors are reported to the caller.
+func zzC19e2CloseErrors() {
+	a, b, c := zzNewMember("a", 3), zzNewMember("b", 3), zzNewMember("c", 3)
+	ea, eb, ec := errors.New("a: reset"), errors.New("b: reset"), errors.New("c: reset")
+	failing := vf.Choose("failing.members", 8)
+	if failing&1 != 0 {
+		a.closeErr = ea
+	}
+	if failing&2 != 0 {
+		b.closeErr = eb
+	}
+	if failing&4 != 0 {
+		c.closeErr = ec
+	}
+	ids := []transport.TransportID{"a", "b", "c"}
+	m, err := NewTransport(TransportConfig{TransportMap: TransportMap{"a": a, "b": b, "c": c}, InitialTransportID: ids[vf.Choose("initial", 3)], SchedulerMode: SchedulerModePolling})
+	vf.Assume(err == nil)
+	vf.Settle()
+	vf.AllMapOrders(true) // the walk over the member map inside Close may take any order
+	cerr := m.Close()
+	vf.AllMapOrders(false)
+	vf.Settle()
+	vf.Assert("every-member-closed-despite-errors", a.closed >= 1 && b.closed >= 1 && c.closed >= 1)
+	vf.Assert("members-closed-once", a.closed <= 1 && b.closed <= 1 && c.closed <= 1)
+	if failing == 0 {
+		vf.Assert("clean-close-is-nil", cerr == nil)
+	} else {
+		vf.Assert("member-errors-reported", cerr != nil &&
+			(failing&1 == 0 || errors.Is(cerr, ea)) && (failing&2 == 0 || errors.Is(cerr, eb)) && (failing&4 == 0 || errors.Is(cerr, ec)))
+	}
 	vf.Reach("end")
 }
